@@ -491,14 +491,20 @@ Section Glue.
       do 2 eexists. split; [reflexivity|split; [reflexivity|exact W3]].
   Qed.
 
-  Theorem vglue : agree_v a st i.
+  Theorem vglue_core : exists s1 s2, run_d d st i = Some s1 /\ run_r r st i = Some s2 /\ state_eq s1 s2.
   Proof.
-    unfold agree_v. rewrite (exec_vector_eq a st i Hnr), (exec_spec_v_eq a st i Hnr).
-    unfold exec_vector_gen, exec_spec_vgen. rewrite Hd, Hr. cbn [obind].
+    unfold run_d, run_r.
     destruct glue_loop as (s' & HL & HS & HV). rewrite HL, glue_ok. cbn [negb].
     destruct glue_mask as [HM HMr]. rewrite HM.
     destruct (glue_st1 s' HS HV) as (st1 & E1 & Heq).
     fold spec_st1. rewrite E1. cbn [obind].
     exact (glue_finish s' st1 _ HMr Heq).
+  Qed.
+
+  Theorem vglue : agree_v a st i.
+  Proof.
+    unfold agree_v. rewrite (exec_vector_eq a st i Hnr), (exec_spec_v_eq a st i Hnr).
+    unfold exec_vector_gen, exec_spec_vgen. rewrite Hd, Hr. cbn [obind].
+    exact vglue_core.
   Qed.
 End Glue.
